@@ -18,6 +18,8 @@
 //          markup characters) into the package, a group name, test name, file name, failure file, failure text, plugin text or
 //          printed text.  Bytes that are not valid UTF-8 are outside the domain: the report declares encoding="UTF-8" and the
 //          statement speaks of printable characters.
+//          File system model: one capture per fopen, and the last content written under a name is what stays on disk: the empty report
+//          that a group without a selected test may write must not carry the name of the report of a group that ran.
 //          The registry is run 1..3 times against the SAME output object with a fresh TestResult per pass (what
 //          CommandLineTestRunner does for -rN), the order optionally reversed before a pass (groups stay consecutive; no
 //          shuffle: the statement's precondition); one case in three goes through the REAL, unmodified CommandLineTestRunner
@@ -692,6 +694,9 @@ int run_and_judge(const CaseM& c, bool useKnown, Verdict& v) {
     size_t fileIndex = 0;      // next captured file
     bool filtering = !c.groupFilters.empty() || !c.nameFilters.empty();
     if (filtering) verif::cls(sfmt("filters:%zu-group-%zu-name", c.groupFilters.size(), c.nameFilters.size()).c_str());
+    // the file system keeps the last content written under a name: the names of the reports of groups that ran (>= 1 selected test)
+    std::vector<std::pair<std::string, const GroupM*>> ranNames;
+    for (auto& g : c.groups) { bool ran = false; for (auto& t : g.tests) if (selected(c, g.name, t)) ran = true; if (ran) ranNames.emplace_back(expected_file_name(c, g), &g); }
     for (uint32_t pass = 0; pass < c.passes; pass++) {
         // the order of this pass: a reversal turns the whole list round (groups stay consecutive)
         if (c.reverse[pass] && (!c.viaRunner || pass == 0)) { reversed = !reversed; verif::cls("order:reversed-before-a-pass"); }
@@ -724,7 +729,14 @@ int run_and_judge(const CaseM& c, bool useKnown, Verdict& v) {
                     const Cap& ec = *g_files[fileIndex];
                     Doc ed; std::string eerr;
                     bool wf = !ec.open && ec.closes == 1 && parse_xml(ec.data, ed, eerr);
-                    if (wf && ed.root && ed.root->children("testcase").empty()) { fileIndex++; verif::cls("deselected-group:report-without-testcase"); }
+                    if (wf && ed.root && ed.root->children("testcase").empty()) {
+                        // ... but never under the name of a group that ran: that would replace its report on disk by an empty one
+                        for (auto& rn : ranNames)
+                            V_CHECK(rn.first != ec.name, "C16:report-overwritten", "pass %u: the group \"%s\", none of whose tests is selected, wrote an empty report (tests=\"%s\") to \"%s\", "
+                                    "the report of group \"%s\" that ran: what is left on disk under that name states no test", pass + 1, P(g.name).c_str(),
+                                    ed.root->attr("tests") ? ed.root->attr("tests")->c_str() : "?", P(ec.name).c_str(), P(rn.second->name).c_str());
+                        fileIndex++; verif::cls("deselected-group:report-without-testcase");
+                    }
                 }
                 continue;
             }
